@@ -63,6 +63,13 @@ def enum_units(tier, seed):
          "ir": [{"k": "const", "n": "p_ay", "e": L(0x77), "eager": False}, org, M, {"k": "call", "n": "m_a", "args": [L(1)]}]},
         {"t": "reject", "why": "too few arguments (a label of the call site has the missing parameter's name)", "rom": "low",
          "ir": [org, {"k": "label", "n": "p_ay"}, M, {"k": "call", "n": "m_a", "args": [L(1)]}]},
+        {"t": "reject", "why": "undefined macro (inside a taken .if branch that has an else branch)", "rom": "low",
+         "ir": [org, {"k": "data", "d": "db", "es": [L(1)]}, {"k": "if", "c": L(1), "t": [{"k": "call", "n": "m_zz", "args": [L(2)]}], "e": [{"k": "data", "d": "db", "es": [L(0xEE)]}]}]},
+        {"t": "reject", "why": "undefined macro (inside a taken .if branch without else, in a loop)", "rom": "low",
+         "ir": [org, {"k": "for", "v": "i_0", "lo": L(0), "hi": L(2), "b": [{"k": "if", "c": L(5), "t": [{"k": "call", "n": "m_zz", "args": []}], "e": None}]}]},
+        {"t": "reject", "why": "undefined macro (guarded tail call inside a macro body)", "rom": "low",
+         "ir": [org, {"k": "macro", "n": "m_g", "ps": ["p_gx"], "b": [{"k": "data", "d": "db", "es": [["id", "p_gx"]]}, {"k": "if", "c": ["id", "p_gx"], "t": [{"k": "call", "n": "m_tail_zz", "args": [["id", "p_gx"]]}], "e": None}]},
+                {"k": "call", "n": "m_g", "args": [L(1)]}]},
         {"t": "reject", "why": "no argument for a macro with one unused parameter", "rom": "low",
          "ir": [org, {"k": "macro", "n": "m_v", "ps": ["p_vx"], "b": [{"k": "data", "d": "db", "es": [L(9)]}]}, {"k": "call", "n": "m_v", "args": []}]},
         {"t": "reject", "why": "too few arguments in a nested application", "rom": "low",
